@@ -310,7 +310,7 @@ type vCfg struct {
 	klen    int  // max key length (1..klen, chosen per key)
 	vlen    int  // max value length (vlenMin..vlen, chosen per item)
 	vlenMin int
-	variant int  // 0 weak, 1 heap order, 2 heap order + distinct priorities
+	variant int // 0 weak, 1 heap order, 2 heap order + distinct priorities
 	cmp     KeyCompare
 	name    string
 }
